@@ -134,7 +134,7 @@ ENGINES["net"] = dict(path="tools/gen_netconsts.py + coq/theories/Net + coq/theo
 from checks import alg as alg_engine
 REGISTRY["C18"] = alg_engine.run
 META["C18"] = dict(engine="alg",
-    note="Trusted: Coq kernel + vm_compute, no axioms (Print Assumptions: closed under the global context for all nine theorems). "
+    note="Trusted: Coq kernel + vm_compute, no axioms (Print Assumptions: closed under the global context for all ten theorems). "
          "Premises in the statements: the evaluation points 1..n are pairwise different and non-zero in the field (n < char F; for Z/r: "
          "n < r), the curve groups are modules over that field (prime-order groups), and for the integer-level theorem that the BN254 "
          "group order r is prime (hypothesis 'prime p', not re-proved). The model of sss.go/choose.go (Z with explicit mod r, extended "
